@@ -815,6 +815,13 @@ func (e *Env) callSpec(t ECall) Val {
 	case "fnenv":
 		v := e.eval(t.Args[0])
 		return mathInt(fmt.Sprintf("(fn_env %s)", v.T))
+	case "fncap": // fncap(f, T): the variable of type T captured (by reference) by the closure f with one free variable
+		v := e.eval(t.Args[0])
+		ty := e.goTypeOf(exprText(t.Args[1]))
+		if ty == nil {
+			unsup("spec: fncap: unknown type %s", t.Args[1])
+		}
+		return e.loadRef(fmt.Sprintf("(fn_env %s)", v.T), ty)
 	case "allocated": // reference existed at function entry
 		v := e.eval(t.Args[0])
 		return mathBool(fmt.Sprintf("(< %s %s)", refTerm(v), e.old.alloc))
@@ -887,6 +894,14 @@ func (e *Env) callSpec(t ECall) Val {
 		v := e.eval(t.Args[0])
 		c := vc.comp(e.st, poolHeldComp, "(Array Int Bool)")
 		return mathBool(fmt.Sprintf("(select %s %s)", c, v.T))
+	case "buf_sep", "buf_open": // ghost: the last write to the *bytes.Buffer was WriteByte(',') / WriteByte of '{' or '['
+		v := e.eval(t.Args[0])
+		c := vc.comp(e.st, bufSepComp, "(Array Int Int)")
+		k := "1"
+		if t.Fn == "buf_open" {
+			k = "2"
+		}
+		return mathBool(fmt.Sprintf("(= (select %s %s) %s)", c, v.T, k))
 	case "buf_arr": // identity of the backing array of a *bytes.Buffer
 		v := e.eval(t.Args[0])
 		c := vc.bufArr(e.st)
@@ -924,6 +939,66 @@ func (e *Env) callSpec(t ECall) Val {
 	if p := vc.prog.lookupPred(e.pkgTypes(), t.Fn); p != nil {
 		if len(p.Params) != len(t.Args) {
 			unsup("spec: predicate %s expects %d arguments", t.Fn, len(p.Params))
+		}
+		// a closed predicate (its body reads nothing but its parameters) becomes one SMT function, applied at each use
+		if vc.prog.closedPred(p, map[*PredDecl]bool{}) {
+			var args, sorts []string
+			var vals []Val
+			ok := true
+			for _, a := range t.Args {
+				v := e.eval(a)
+				srt := v.Sort
+				if srt == "" && v.Typ != nil {
+					srt = vc.sortOf(v.Typ)
+				}
+				if srt == "" || v.Loc != nil || len(v.Tuple) > 0 {
+					ok = false
+					break
+				}
+				args = append(args, v.T)
+				sorts = append(sorts, srt)
+				vals = append(vals, v)
+			}
+			if ok && len(args) > 0 {
+				fname := q("pred " + p.PkgPath + "." + p.Name + " " + strings.Join(sorts, " "))
+				if !vc.declared[fname] {
+					penv := *e
+					penv.bound = map[string]Val{}
+					penv.frame = nil
+					penv.vars = map[string]Val{}
+					for _, sp := range vc.prog.pkgs {
+						if sp.Pkg.Path() == p.PkgPath {
+							penv.pkg = sp
+						}
+					}
+					var decl []string
+					for i, prm := range p.Params {
+						v := vals[i]
+						v.T = fmt.Sprintf("x!%d", i)
+						if gt := penv.goTypeOf(prm.Type); gt != nil {
+							v.Typ = gt
+						} else if v.Typ != nil {
+							v = Val{T: v.T, Sort: e.sortOfTypeString(prm.Type)}
+						}
+						penv.bound[prm.Name] = v
+						decl = append(decl, fmt.Sprintf("(x!%d %s)", i, sorts[i]))
+					}
+					bv := penv.eval(p.Body)
+					isBool := bv.Sort == "Bool"
+					if bt, ok := bv.Typ.(*types.Basic); ok && bv.Typ != nil && bt.Kind() == types.Bool {
+						isBool = true
+					}
+					if isBool {
+						vc.rawDecl(fname, fmt.Sprintf("(define-fun %s (%s) Bool %s)", fname, strings.Join(decl, " "), bv.T))
+					} else {
+						vc.declared[fname] = true
+						vc.notBoolPred[fname] = true
+					}
+				}
+				if !vc.notBoolPred[fname] {
+					return mathBool("(" + fname + " " + strings.Join(args, " ") + ")")
+				}
+			}
 		}
 		// predicates are evaluated in the scope of their own package
 		penv := *e
@@ -1049,6 +1124,8 @@ func (e *Env) modTarget(x Expr, out map[string][]string) {
 			out[bufArrComp] = append(out[bufArrComp], "ALL")
 			vc.comp(e.st, poolHeldComp, "(Array Int Bool)")
 			out[poolHeldComp] = append(out[poolHeldComp], "ALL")
+			vc.comp(e.st, bufSepComp, "(Array Int Int)")
+			out[bufSepComp] = append(out[bufSepComp], "ALL")
 			out[ek] = append(out[ek], "POOLED")
 			return
 		case "once_done":
